@@ -70,6 +70,14 @@ def check_drivers(ctx):
         if not single:
             compare(ctx, 'PERM-8', tag + ': apertures', where_, e.attrs.get('_apertures'), sym('sap' if v == 1 else 'cap', A), (A,), vocab=VOCAB, fns=FNS, detail_ok='the SED / cube apertures')
         seq = [(c[0], c[1], c[2]) for c in h.calls if c[0] in ('sort_to_match', 'write')]
+        # every filter's table reaches a file of its own under <package>/convolved/: the table handed to write() is the one filled above
+        writes_ = [s_ for s_ in seq if s_[0] == 'write']
+        if writes_ and any(s_[1] is e for s_ in writes_):
+            ctx.ok('CFG-5', tag + ': each table is written', where_, 'write() is called on the table of each filter')
+        elif I.lost:
+            ctx.undecided('CFG-5', tag + ': each table is written', where_, 'no write of the filled table was met, but a call was not followed: %s' % (I.lost[0],))
+        else:
+            ctx.violation('CFG-5', tag + ': each table is written', where_, 'the table filled for a filter is never handed to write(): no convolved/<filter>.fits comes out', 'never-written')
         if v == 1 and not single:
             ok = len(seq) >= 2 and seq[0][0] == 'sort_to_match' and seq[1][0] == 'write' and seq[0][1] is seq[1][1] \
                 and isinstance(seq[0][2][0], Arr) and seq[0][2][0].poly == sym('pnames', M)
